@@ -19,4 +19,5 @@ open LoomVerif
 #print axioms Refine.Run.lift
 #print axioms Refine.Example.run0
 #print axioms Refine.Example.run1
-#print axioms Refine.phantom_thread
+#print axioms Refine.run_sane
+#print axioms Refine.phantom_thread_panics
